@@ -90,6 +90,23 @@ void adapter_exec(Ev *ev)
         if (st2 != status || (st2 == 0 && ((long long)q.position != pos || nflat != nflat1 || memcmp(flat, flat1, sizeof(long long) * (size_t)nflat) != 0))) agree = 0;
         sx_destroy(&q.node);
     }
+    /* third presentation: the same n octets embedded in a larger buffer, directly followed by characters that
+     * would extend a token (digit, hex letter, symbol character): a reader that looks past n sees a different text */
+    {
+        static const char tail[] = "7fA(";
+        char *emb = xblock(n + sizeof tail);
+        memcpy(emb, z, n);
+        memcpy(emb + n, tail, sizeof tail);
+        struct sx_parse_result q = sx_parse_stringn(emb, n);
+        long long st3 = q.status == SXS_SUCCESS ? 0 : 1;
+        if (st3 == 1 && q.node != NULL) st3 = 2;
+        if (st3 == 0 && q.node == NULL) st3 = 3;
+        nflat = 0;
+        if (st3 == 0) flatten(q.node, 0);
+        if (st3 != status || (st3 == 0 && ((long long)q.position != pos || nflat != nflat1 || memcmp(flat, flat1, sizeof(long long) * (size_t)nflat) != 0))) agree = 0;
+        sx_destroy(&q.node);
+        xfree(emb);
+    }
     obs(ev, status);
     if (status == 0) obs(ev, pos);
     obs(ev, leak);
